@@ -38,6 +38,12 @@ type c17Case struct {
 	Conns  [][]subSpec      `json:"connections"`
 	Jitter uint64           `json:"jitter_seed"`
 	Deep   bool             `json:"three_service_chain,omitempty"`
+	// Prelude: before the scenario another client connection runs the first subscription once (own marker), sees an
+	// event and disconnects abruptly: what that connection set up must not be what later connections depend on
+	Prelude bool `json:"prelude_connection,omitempty"`
+	// ChildFault: the first follow-up call each service receives is answered with GraphQL errors: that event reports
+	// them, the events after it are stitched as if nothing had happened
+	ChildFault bool `json:"first_child_call_fails,omitempty"`
 }
 
 func (c17) ID() string            { return "C17" }
@@ -101,6 +107,16 @@ func serviceChain(u *gen.Universe, mono *ast.Schema, q string) int {
 	var walk func(ss ast.SelectionSet, typ string, cur int, seen map[int]bool)
 	walk = func(ss ast.SelectionSet, typ string, cur int, seen map[int]bool) {
 		for _, sel := range ss {
+			switch x := sel.(type) {
+			case *ast.InlineFragment:
+				walk(x.SelectionSet, typ, cur, seen)
+				continue
+			case *ast.FragmentSpread:
+				if x.Definition != nil {
+					walk(x.Definition.SelectionSet, typ, cur, seen)
+				}
+				continue
+			}
 			f, ok := sel.(*ast.Field)
 			if !ok || strings.HasPrefix(f.Name, "__") || f.Definition == nil {
 				continue
@@ -141,9 +157,17 @@ func serviceChain(u *gen.Universe, mono *ast.Schema, q string) int {
 }
 
 func genSubOpDepth(r *rand.Rand, mono *ast.Schema, marker string, depth int) *gen.Op {
+	return genSubOpFrag(r, mono, marker, depth, -1)
+}
+
+// genSubOpFrag: pFragment >= 0 overrides the probability of named fragments in the selection.
+func genSubOpFrag(r *rand.Rand, mono *ast.Schema, marker string, depth int, pFragment float64) *gen.Op {
 	for try := 0; try < 40; try++ {
 		prof := coreOpProfile()
 		prof.Kind, prof.Depth, prof.Width, prof.PMultiOp, prof.POpName, prof.PVar = ast.Subscription, depth, 3, 0, 0.3, 0.1
+		if pFragment >= 0 {
+			prof.PFragment = pFragment
+		}
 		op := genCoreOp(r, mono, prof)
 		if op == nil {
 			return nil
@@ -199,6 +223,17 @@ func (p c17) Gen(c *run.Ctx, idx int) (json.RawMessage, error) {
 			op := genSubOp(r, cu.mono, marker)
 			if op == nil {
 				continue
+			}
+			if cs.Cfg.Planner == "cached" && si == 0 {
+				// a selection that crosses services behind a named fragment; started again (same text, the marker as a
+				// variable) it is a cache hit whose operation was never planned
+				r3 := rng(c.Seed, "c17/frag", idx*8+ci)
+				for try := 0; try < 30; try++ {
+					if cand := genSubOpFrag(r3, cu.mono, marker, 3, 0.7); cand != nil && strings.Contains(cand.Query, "fragment ") && serviceChain(cu.u, cu.mono, cand.Query) >= 2 {
+						op = cand
+						break
+					}
+				}
 			}
 			if idx%3 == 1 && ci == 0 && si == 0 && cu.u.K >= 3 {
 				// directed: a selection that walks through three services, the third met below a dependent step
@@ -273,6 +308,8 @@ func (p c17) Gen(c *run.Ctx, idx int) (json.RawMessage, error) {
 	if len(cs.Conns) == 0 {
 		return nil, nil
 	}
+	cs.Prelude = idx%4 == 3
+	cs.ChildFault = idx%5 == 1
 	return mustJSON(cs), nil
 }
 
@@ -313,6 +350,55 @@ func (p c17) Exec(c *run.Ctx, idx int, raw json.RawMessage) []run.Result {
 	}
 	for _, u := range r.Upstreams {
 		u.Script = func(marker string, req *engine.Request) []fake.SubEvent { return scripts[marker] }
+	}
+	if sp.ChildFault {
+		for _, s := range r.Services {
+			s.FaultFn = func(cl *fake.Call) *fake.Fault {
+				if cl.SvcCall == 1 {
+					return &fake.Fault{Kind: "errors", Pos: -1}
+				}
+				return nil
+			}
+		}
+	}
+	callsMark := 0
+	if sp.Prelude && len(sp.Conns[0]) > 0 {
+		pre := sp.Conns[0][0]
+		pre.ID = "pre"
+		pre.Op.Query = strings.ReplaceAll(pre.Op.Query, pre.Marker, "mk-pre")
+		if pre.Op.Variables != nil {
+			nv := map[string]any{}
+			for k, v := range pre.Op.Variables {
+				if v == any(pre.Marker) {
+					v = "mk-pre"
+				}
+				nv[k] = v
+			}
+			pre.Op.Variables = nv
+		}
+		pre.Marker = "mk-pre"
+		scripts["mk-pre"] = []fake.SubEvent{{Kind: "data"}, {Kind: "data"}}
+		if cl, err := rig.DialWS(r.Server.URL); err == nil {
+			cl.Send(map[string]any{"type": "connection_init"})
+			cl.Send(startMsg(pre))
+			for t := 0; t < 400; t++ {
+				n := 0
+				for _, f := range cl.Frames() {
+					if f.Type == "data" || f.Type == "error" {
+						n++
+					}
+				}
+				if n >= 1 {
+					break
+				}
+				time.Sleep(5 * time.Millisecond)
+			}
+			cl.Close()
+			time.Sleep(20 * time.Millisecond)
+			nsubs++
+			res.Counters["prelude_connections"] = 1
+		}
+		callsMark = r.Log.Len()
 	}
 	sched.Install(sched.Options{Seed: sp.Jitter, Jitter: true, Record: true, MaxEvents: 20000})
 	clients := make([]*rig.WSClient, len(sp.Conns))
@@ -539,6 +625,10 @@ func (p c17) Exec(c *run.Ctx, idx int, raw json.RawMessage) []run.Result {
 				if len(ref.Errors) > 0 {
 					continue
 				}
+				if el, _ := f.Payload["errors"].([]any); len(el) > 0 && sp.ChildFault && strings.Contains(errMessages(el), "injected failure") {
+					res.Counters["events_with_injected_child_fault"]++
+					continue
+				}
 				if el, _ := f.Payload["errors"].([]any); len(el) > 0 {
 					add("event-with-errors: "+errTemplate(errMessages(el)), fmt.Sprintf("subscription %s event %d: %s\nquery: %s", s.ID, k, errMessages(el), s.Op.Query))
 					break
@@ -565,7 +655,7 @@ func (p c17) Exec(c *run.Ctx, idx int, raw json.RawMessage) []run.Result {
 	res.Key = hashStr(specHashOf(sp.U), jsonStr(sp.Conns), sp.Cfg.String())
 	{
 		calls := map[string]map[int64]bool{}
-		for _, e := range r.Log.Since(0) {
+		for _, e := range r.Log.Since(callsMark) {
 			if e.OpKw == "subscription" || e.CallID == 0 {
 				continue
 			}
